@@ -305,6 +305,53 @@ PLANS = {
                                              "for a 32,767-byte key; runs alone in its own process) are exercised only by labelled probes",
                                              "mutations that disturb split references are analysed in mode C only"],
     },
+    "C18": lambda tier: {
+        "level": "exploration",
+        "stages": [
+            main_stage(60, 300, tier, death_is_violation=True),
+            main_stage(60, 300, tier, build="tsan", name="tsan", death_is_violation=False),
+            dict(main_stage(90, 300, tier, name="pythreads", death_is_violation=False, shards=8), needs=["py", "cli"], extra=["--prop-alias", "C19"]),
+        ] + ([] if tier == "quick" else [
+            dict(main_stage(60, 1200, tier, build="miri", name="miri", death_is_violation=False), shards=16),
+        ]),
+        "require": ["repetitions", "concurrent_results_compared_with_baseline", "overlapping_operation_pairs_between_threads",
+                    "tsan.concurrent_results_compared_with_baseline", "tsan.overlapping_operation_pairs_between_threads",
+                    "pythreads.py_thread_results"],
+        "rule": "each repetition: a fresh world with EVERY plugin type (default input text, prolonged marks, yomigana, MeCab + regex + simple OOV, "
+                "numeric + katakana joining, inhibited connection) and two user dictionaries, loaded aligned or from an odd address; N in "
+                "{2,4,8,16} threads, each with its own tokenizers (one per mode x field subset out of 6 subsets) over the one shared "
+                "dictionary, start together behind a barrier (lazily initialised tables are first touched concurrently; the single-threaded "
+                "baseline is computed AFTER the concurrent phase) and run 200 operations each over a shared pool of 60 texts; hook H1 makes "
+                "every 64th matrix / trie access yield. Monitors: every concurrent result == single-threaded result for the same (text, mode, "
+                "subset); digest of the dictionary (all matrix cells, all word parameters, POS list, all word infos) before == after; panic "
+                "in any thread; ThreadSanitizer build of the same workload (happens-before race detection, -Zbuild-std); thorough: Miri with "
+                "16 scheduler seeds (data-race detection, 2-3 threads). Python half: 8 threading.Thread workers over tokenizers created from "
+                "ONE Dictionary, 300 analyses each, results vs a sequential pass, interpreter exit status (no race detector applies to "
+                "CPython). Evidence of interleaving: operations are stamped from one global atomic clock; overlapping_operation_pairs counts "
+                "cross-thread overlaps. distinct_nontrivial = distinct thread-order signatures of the operation logs",
+        "assumptions": COMMON_ASSUMPTIONS + ["absence of a TSan / Miri report covers only the schedules and accesses executed",
+                                             "Miri runs without the aliasing models (DESIGN.md 2.2)"],
+    },
+    "C19": lambda tier: {
+        "level": "exploration",
+        "stages": [dict(main_stage(90, 400, tier, death_is_violation=False), needs=["py", "cli"])],
+        "require": ["scenarios", "py_cases", "py_fields_compared", "py_splits_compared", "py_lookups", "py_history_probes",
+                    "cli_runs_compared", "cli_files_with_blank_lines"],
+        "rule": "per scenario a generated world (dictionaries + user dictionaries + definition files + sudachi.json with a random plugin stack) "
+                "is written to a directory; the expected results are computed in-process with the core library; (Python) the freshly built "
+                "sudachipy extension analyses 40 (text, mode) cases: surface, raw_surface, part_of_speech(+id), dictionary/normalized/reading "
+                "form, word_id, dictionary_id, is_oov, synonym_group_ids, begin/end in code points, text[begin:end]==raw_surface, "
+                "split(A/B, add_single=False), Dictionary.lookup; then 6 random API histories of 25 operations (per-call mode override, "
+                "over-long input with override, out= reuse for tokenize / split / lookup, stale Morpheme objects, field subsets, projections) "
+                "each followed by a probe compared with a fresh tokenizer; the driver's exit status is the crash monitor (Python exceptions "
+                "incl. PanicException are not crashes). (CLI) 3 generated multi-line files per scenario (blank lines, CRLF, no final "
+                "newline, several sentences per line) x mode x {default, -a, -w} x --split-sentences {yes, no, only} x {stdin, file} x "
+                "{stdout, -o}: output must equal the harness's rendering of the library result per line / sentence. "
+                "distinct_nontrivial = distinct scenarios / files that matched completely",
+        "assumptions": COMMON_ASSUMPTIONS + ["the column format is the one documented in README (surface TAB pos TAB normalized [TAB dictionary "
+                                             "TAB reading TAB dictionary-id TAB synonyms [TAB (OOV)]], EOS per sentence)",
+                                             "Morpheme.split is compared with add_single=False"],
+    },
 }
 
 
